@@ -106,10 +106,7 @@ fn body_drain(mut c: LruCache<u8, SV, BH>, steps: usize) {
     coherent(&c);
     assert!(c.len() == 0 && c.current_size() == 0 && c.is_empty());
     assert!(c.lru_ptr().is_none());
-    let u = UnhingedEntry::new(5u8, SV(2));
-    c.current_size += u.size();
-    let e = Entry::new(u, c.seal, c.seal.get().next);
-    c.insert_untracked(e);
+    link_new(&mut c, UnhingedEntry::new(5u8, SV(2)));
     coherent(&c);
     assert!(c.len() == 1);
 }
